@@ -352,6 +352,8 @@ class Cone(_Posed):
         s = math.hypot(l[0], l[1])
         if self.height * l[2] >= self.r * s:
             return self.glob(np.array([0.0, 0.0, self.height]))
+        if s == 0:
+            return self.glob(np.zeros(3))  # whole base disk is extreme: take its centre
         return self.glob(np.array([l[0] / s * self.r, l[1] / s * self.r, 0.0]))
 
     def dist(self, p):
@@ -554,7 +556,12 @@ class Hull(Shape):
         return self.v.mean(axis=0)
 
     def translated(self, t):
-        return Hull(self.v + t, self.kind)
+        t = np.asarray(t, dtype=float)
+        H = Hull(self.v + t, self.kind)
+        if self._fac is not None:
+            A, B, C, N, off = self._fac
+            H._fac = (A + t, B + t, C + t, N, off - N @ t)
+        return H
 
     def bound_radius(self):
         return float(np.max(np.linalg.norm(self.v - self.v.mean(axis=0), axis=1)))
